@@ -168,6 +168,8 @@ class StoreProfile(Profile):
         if nvdim == 1 and self.fmt in ("hdf5", "vtk") and rng.random() < 0.25:
             vd = rng.choice([["T"], ["m_z"], ["rho"], ["None"], ["x"]])  # a one-component field may carry a label too
         o = {"op": "mkfield", "out": out, "mesh": mesh, "nvdim": nvdim, "vdims": vd, "unit": rng.choice(UNITS)}
+        if self.fmt == "hdf5" and rng.random() < 0.06:
+            o["unit"] = ""  # explicitly dimensionless: HDF5 keeps the complete state, also an empty unit string
         if nvdim > 1 and rng.random() < 0.3:
             # a permuted or partial component-to-axis mapping, keys written in any order; resolved against
             # the final labels when the field is built (profiles may still replace the labels)
@@ -308,7 +310,7 @@ class OvfProfile(StoreProfile):
         if c in ("flip", "truncate") and fbin and rng.random() < 0.5:
             rel = rng.choice(fbin)  # files of the foreign writers are damaged like the package's own
         if c == "flip":
-            how = rng.choice([{"kind": "bits", "bits": [rng.randrange(64) for _ in range(rng.choice([1, 1, 2, 8, 64]))]}, {"kind": "nan"}, {"kind": "inf"}, {"kind": "zero"}, {"kind": "other"}, {"kind": "neg"}])
+            how = rng.choice([{"kind": "bits", "bits": [rng.randrange(64) for _ in range(rng.choice([1, 1, 2, 8, 64]))]}, {"kind": "nan"}, {"kind": "inf"}, {"kind": "zero"}, {"kind": "other"}, {"kind": "neg"}, {"kind": "swapped"}, {"kind": "swapped"}])
             return {"op": "flip_check", "path": rel, "how": how, "fault": "flip_check"}
         if c == "truncate":
             return {"op": "truncate", "path": rel, "where": self.draw_cut(rng), "fault": "torn_write"}
